@@ -143,7 +143,7 @@ SampleOf(f, stride) == LET off == (Seed * 7919) % stride
                            first == IF off = 0 THEN stride ELSE off
                            cnt == ((SizeOf(f) - first) \div stride) + 1
                        IN [j \in 1..cnt |-> CaseAtF(f, first + (j - 1) * stride)]
-Mix == SampleOf("g2", 9) \o SampleOf("g3", 149) \o SampleOf("g2s", 127) \o SampleOf("g4", 61) \o SampleOf("h2", 601)
+Mix == SampleOf("g2", 17) \o SampleOf("g3", 293) \o SampleOf("g2s", 251) \o SampleOf("g4", 127) \o SampleOf("h2", 1201)
 
 Cases == IF Family = "mix" THEN Mix ELSE OneFamily
 
